@@ -43,6 +43,7 @@ from .trait_errors import TraitError
 from .trait_list_object import TraitListEvent, TraitListObject
 from .trait_set_object import TraitSetEvent, TraitSetObject
 from .trait_type import (
+    _infer_default_value_type,
     NoDefaultSpecified,
     TraitType,
 )
@@ -4191,6 +4192,10 @@ class Union(TraitType):
 
         if 'default_value' in metadata:
             default_value = metadata.pop("default_value")
+            # As for any other trait type, a list or dict given as the
+            # default value is copied for each instance, not shared.
+            self.default_value_type = _infer_default_value_type(
+                default_value)
         else:
             first_default_value_type, first_default_value = (
                 self.list_ctrait_instances[0].default_value())
